@@ -30,7 +30,7 @@ FUNCTIONS = [
 ]
 MUST_REACH = ["fetch.encode_header", "fetch.encode_addrs", "fetch.FetchAtt.envelope", "fetch.FetchAtt.bodystructure", "fetch.FetchAtt.body_parameters", "fetch.FetchAtt.body_disposition", "fetch.FetchAtt.body", "client.Authenticated._fmt_list_response", "client.Authenticated.do_status"]
 BOUNDS = {
-    "quick": {"string sites": "strings of <= 2 characters over 12 representatives of the character classes the quoting code distinguishes (DQUOTE, backslash, CR, LF, NUL, ASCII letter, 8-bit, SP, '(', '{', '%', DEL); str.encode() realises symbolic characters, so they are enumerated", "literal": "payloads of <= 3 octets over 5 octet classes (CR, LF, letter, NUL, high octet), symbolic partial offset and count 0..4", "error text": "NO/BAD/exception texts echoing strings of <= 2 characters over the same 12 classes", "responses": "messages from a menu of 12 header/structure variants x 8 fetch item sets; 8 mailbox names"},
+    "quick": {"string sites": "strings of <= 2 characters over 12 representatives of the character classes the quoting code distinguishes (DQUOTE, backslash, CR, LF, NUL, ASCII letter, 8-bit, SP, '(', '{', '%', DEL); str.encode() realises symbolic characters, so they are enumerated", "literal": "payloads of <= 3 octets over 5 octet classes (CR, LF, letter, NUL, high octet), symbolic partial offset and count 0..4", "error text": "NO/BAD/exception texts echoing strings of <= 2 characters over the same 12 classes", "command replies": "SELECT/EXAMINE/APPEND/STATUS/COPY/MOVE/UID COPY/UID MOVE in every session state on a mailbox of 0 and 2 messages (C06's one-command driver), response codes validated", "responses": "messages from a menu of 12 header/structure variants x 8 fetch item sets; 8 mailbox names"},
     "thorough": {"string sites": "<= 3 characters"},
 }
 SYMBOLIC = ["string / payload selectors", "partial offset and count"]
@@ -529,6 +529,12 @@ def jobs(tier):
             for frm in (range(len(FROMS)) if not q else [None]):
                 for sublo in ((0, 6) if q else (0,)):
                     js.append({"name": f"fetch_response[st={st},it={it},frm={frm},sub={sublo}..]", "fn": "fetch_response", "params": {"st": st, "it": it, "frm": frm, "sublo": sublo, "subhi": sublo + 6 if q else 12}, "timeout": T, "per_path": 90})
+    # the commands whose replies carry response codes (UIDVALIDITY/UIDNEXT/UNSEEN/PERMANENTFLAGS/READ-*,
+    # APPENDUID, COPYUID, TRYCREATE), through C06's one-command driver with the well-formedness oracle on
+    for kind in ("select", "examine", "append", "status", "copy", "move", "uid_copy", "uid_move"):
+        for n in (0, 2):
+            for st in ((0, 1, 2) if kind in ("copy", "move", "uid_copy", "uid_move") and n else (None,)):
+                js.append({"name": f"command_response[{kind},n={n}" + (f",st={st}]" if st is not None else "]"), "module": "harness.c06", "fn": "one_command", "params": {"kind": kind, "n": n, "st": st, "wellformed": True}, "timeout": T, "per_path": 90, "unblock": UNBLOCK})
     js.append({"name": "name_response", "fn": "name_response", "params": {}, "timeout": T, "per_path": 90, "unblock": UNBLOCK})
     for which in ("no", "bad", "exc"):
         js.append({"name": f"error_text[{which}]", "fn": "error_text", "params": {"which": which, "total": _nstrings(2 if q else 3)}, "timeout": T, "per_path": 60})
